@@ -10,7 +10,7 @@ Definition corr3_rt (r : rt) : bool :=
   end.
 Definition corr (c : case) : bool :=
   match c with
-  | CHugr r => corr3_rt r
+  | CHugr r | CHist _ _ _ _ r | CMut _ _ _ r => corr3_rt r
   | CPkg mods _ _ => forallb corr3_rt mods
   | CExt _ _ => true
   end.
